@@ -15,17 +15,10 @@ import itertools
 from harness import parser_h as H
 from lib.vcommon import hexb
 
-DEV_NAMES = ["trailer", "empty_chunk_line", "reqline_lf", "te_http10", "clte_keepalive", "conn_list", "te_ws_element", "target_dslash"]
+DEV_NAMES = ["trailer"]
 # deviation flag -> known-finding class
 KF_OF_DEV = {
     "trailer": "kf_c01_trailer_unvalidated",
-    "empty_chunk_line": "kf_c01_empty_chunk_line",
-    "reqline_lf": "kf_c01_reqline_ws",
-    "te_http10": "kf_c01_te_http10",
-    "clte_keepalive": "kf_c01_clte_keepalive",
-    "conn_list": "kf_c01_conn_close_list",
-    "te_ws_element": "kf_c01_te_ws_element",
-    "target_dslash": "kf_c01_target_nonascii",
 }
 NDEV = len(DEV_NAMES)
 STRICT = "0" * NDEV
